@@ -240,6 +240,8 @@ class ProtoRecorder:
         self.assemble_errors = []
         self.span = []
         self.span_cur = None
+        self.best = []
+        self.max_best = 30
         self.max_span = 12
         self.max_span_size = 6000
         self.max_assemble = 40
@@ -254,6 +256,9 @@ class ProtoRecorder:
                 rec.cur.update(totalValid=len(valid_spans), combo=[int(i) for i in out], spans=np.array(valid_spans, dtype=float))
             if rec.span_cur is not None:
                 rec.span_cur.update(valid_metrics=[int(m) for m in valid_span_metrics], combo=[int(i) for i in out])
+            if len(rec.best) < rec.max_best and len(valid_spans) <= 26:
+                rec.best.append({"spans": np.array(valid_spans, dtype=float).copy(), "metrics": [int(m) for m in valid_span_metrics], "combo": [int(i) for i in out],
+                                 "angle_tol": float(finder.angle_tol), "cell_size_tol": float(finder.cell_size_tol)})
             return out
 
         def graphs(finder, seed_index, numbers, best_adjacency_lists, neighbour_indices, neighbour_factors):
